@@ -95,11 +95,769 @@ def translate(ctx):
     for cname, (_, hosts, hooks) in CLASSES.items():
         extra.append(f"def cls_{cname}_mro : List String := [" + ", ".join(pyexpr.lean_str(h) for h in hosts) + "]")
         extra.append(f"def cls_{cname}_impls : List Impl := [" + ", ".join(n for (n, _) in tables[cname]) + "]")
-    extra.append("def classes : List (String × List String × List Impl) := [" + ", ".join(
-        f"({pyexpr.lean_str(c)}, cls_{c}_mro, cls_{c}_impls)" for c in CLASSES) + "]")
+        extra.append(f"def cls_{cname}_hooks : List String := [" + ", ".join(pyexpr.lean_str(h) for h in hooks) + "]")
+    extra.append("def classes : List (String × List String × List String × List Impl) := [" + ", ".join(
+        f"({pyexpr.lean_str(c)}, cls_{c}_mro, cls_{c}_hooks, cls_{c}_impls)" for c in CLASSES) + "]")
     ctx.found = gen.emit_impl_module(ctx, ID, used, extra_text="\n".join(extra) + "\n")
     ctx.tables = tables
 
 
+    # bodies outside the translatable subset that the interpreter treats as PARAMETERS (outcome measured on a twin
+    # object by the harness: value / None / exception kind) are declared in ASSUMPTIONS, not tie breaks
+    ctx.notes["opaque_bodies"] = sorted(fn for fn in OPAQUE_OK if any(f"body of {fn} " in t for t in ctx.tie_breaks))
+    ctx.tie_breaks = [t for t in ctx.tie_breaks if not any(f"body of {fn} " in t for fn in OPAQUE_OK)]
+
+
+OPAQUE_OK = {"length_from_roll_pass_positions", "target_cross_section_area_from_target_width",
+             "target_cross_section_area_from_target_width3", "conti_velocity"}
+
+RULE = ("every group (unit length/duration/velocity; roll radius/diameter; rotational frequency/surface/working velocity; "
+        "pipe radius/area; target width/filling ratio/area/area ratio; neutral point/angle) x every world (class, "
+        "placement in a sequence, which external quantities exist) x EVERY subset of supplied members x EVERY read order "
+        "on a fresh real object, values random log-uniform positive and mutually consistent. A case = (world, subset, "
+        "order, values); non-trivial = at least one member is derived (neither all supplied nor all failing); distinct by "
+        "(world, subset, order). Per case the Lean interpreter runs the same scenario (values, error kinds, cached names).")
+ASSUMPTIONS = [
+    "IEEE rounding: consistency and round trips are theorems over the reals; on floats they are checked with rtol 1e-9",
+    "hook implementation bodies outside the translatable subset (length_from_roll_pass_positions, "
+    "target_cross_section_area_from_target_width[3], navigation with try/except) are parameters of the interpreter: their "
+    "outcome (value / None / exception kind) is measured on a twin object",
+    "quantities living on other objects (in_profile.velocity, groove.groove_factor, roll_pass.velocity, usable_width, ...) "
+    "are parameters: availability measured on a twin object, value symbolic",
+    "the interpreter is tied to hooks.py by the sampled differential runs only (K); hooks.py itself is the subject of C01/C02/C07",
+]
+
+GROUPS = {
+    "unit": ["length", "duration", "velocity"],
+    "radius": ["nominal_radius", "nominal_diameter"],
+    "rollvel": ["rotational_frequency", "surface_velocity", "working_velocity"],
+    "pipe": ["inner_radius", "cross_section_area"],
+    "target": T_HOOKS,
+    "neutral": ["neutral_point", "neutral_angle"],
+}
+FUEL = 5000          # machine steps per read given to the interpreter (the theorems bound the need by < 400)
+SLOW = 0.5           # seconds: a failing read slower than this counts as "not bounded"
+RTOL = 1e-9
+
+
+# --------------------------------------------------------------------------------------------------------------
+# real objects
+# --------------------------------------------------------------------------------------------------------------
+def _core():
+    import logging
+    logging.getLogger("pyroll").setLevel(logging.ERROR)
+    import pyroll.core as pc
+    return pc
+
+
+def _groove(pc):
+    return pc.BoxGroove(r1=2e-3, r2=4e-3, depth=10e-3, usable_width=30e-3, ground_width=24e-3)
+
+
+def _logu(rng, lo=-2.0, hi=2.0):
+    return math.exp(rng.uniform(lo, hi))
+
+
+def _safe(f):
+    try:
+        return ("V", f())
+    except Exception as e:  # noqa - classification of what the implementation raises
+        return ("E", e)
+
+
+class World:
+    """one class in one situation.  `build(sup)` returns (fresh object, keep-alive list); `values(rng)` a consistent
+    assignment of all members (+ auxiliaries used by build); `known(twin)` the oracle's list of external facts;
+    `rules` the directions the core documents; `relations(obj, got)` yields (name, lhs, rhs)."""
+
+    def __init__(self, name, cls, group, values, build, known, rules, relations):
+        self.name, self.cls, self.group = name, cls, group
+        self.members = GROUPS[group]
+        self.values, self.build, self.known, self.rules, self.relations = values, build, known, rules, relations
+
+
+def _worlds():
+    pc = _core()
+    from pyroll.core.roll_pass.hookimpls import helpers
+    W = []
+
+    # ---- unit length / duration / velocity on transports -------------------------------------------------------
+    def unit_values(rng):
+        v, d = _logu(rng), _logu(rng)
+        return {"velocity": v, "duration": d, "length": v * d}
+
+    def unit_known(t):
+        k = set()
+        if t.in_profile is not None and _safe(lambda: t.in_profile.velocity)[0] == "V":
+            k.add("in_profile.velocity")
+        if t.in_profile is not None and _safe(lambda: t.prev.velocity)[0] == "V":   # a unit without in-profile (never solved) has no velocity
+            k.add("prev.velocity")
+        # the length follows from the positions of the enclosing roll passes when both carry a location
+        try:
+            n, p = t.next_of(pc.RollPass), t.prev_of(pc.RollPass)
+            if n.has_value("location") and p.has_value("location"):
+                k.add("@positions")
+        except (IndexError, ValueError):
+            pass
+        return k
+
+    unit_rules = [("length", ["velocity", "duration"]), ("duration", ["length", "velocity"]),
+                  ("velocity", ["in_profile.velocity"]), ("velocity", ["length", "prev.velocity"]),
+                  ("length", ["@positions"])]
+
+    def unit_rel(obj, got):
+        if all(m in got for m in ("length", "duration", "velocity")):
+            yield ("length=velocity*duration", got["length"], got["velocity"] * got["duration"])
+
+    def mk_transport(cls_name, inprof, place):
+        def build(sup, vals):
+            cls = getattr(pc, cls_name)
+            t = cls(**sup)
+            if inprof != "none":
+                kw = {"velocity": vals["velocity"]} if inprof == "vel" else {}
+                t.in_profile = cls.InProfile(t, pc.Profile.round(radius=0.01, **kw))
+            g = _groove(pc)
+
+            def rp(**kw):
+                return pc.RollPass(roll=pc.Roll(groove=g, nominal_radius=0.16), gap=2e-3, **kw)
+            keep = []
+            if place == "first":
+                keep.append(pc.PassSequence([t, pc.Transport(length=1.0)]))
+            elif place == "last":
+                keep.append(pc.PassSequence([rp(velocity=vals["velocity"]), t]))
+            elif place == "located":
+                keep.append(pc.PassSequence([rp(location=1.0, velocity=vals["velocity"]), t,
+                                             rp(location=1.0 + vals["length"])]))
+            elif place == "unlocated":
+                keep.append(pc.PassSequence([pc.Transport(label="p"), t, rp()]))
+            return t, keep
+        return World(f"{cls_name}/{inprof}/{place}", cls_name, "unit", unit_values, build, unit_known, unit_rules, unit_rel)
+
+    for inprof in ("none", "novel", "vel"):
+        for place in ("alone", "first", "last", "located", "unlocated"):
+            W.append(mk_transport("Transport", inprof, place))
+    W.append(mk_transport("CoolingPipe", "vel", "alone"))
+    W.append(mk_transport("CoolingPipe", "novel", "located"))
+
+    # ---- unit group on roll passes ---------------------------------------------------------------------------------
+    def mk_pass_unit(cls_name, with_rf):
+        def values(rng):
+            R, rf, L = rng.uniform(0.1, 0.4), _logu(rng), rng.uniform(0.01, 0.05)
+            gf = _groove(pc).groove_factor
+            v = rf * (R - gf) * 2 * math.pi
+            return {"velocity": v, "length": L, "duration": L / v, "R": R, "rf": rf}
+
+        def build(sup, vals):
+            kw = {"rotational_frequency": vals["rf"]} if with_rf else {}
+            roll = pc.Roll(groove=_groove(pc), nominal_radius=vals["R"], **kw)
+            if cls_name == "TwoRollPass":
+                return pc.TwoRollPass(roll=roll, gap=2e-3, entry_point=-vals["length"], **sup), []
+            g3 = pc.RoundGroove(r1=3e-3, r2=12.5e-3, depth=5e-3, pad_angle=30)
+            roll = pc.Roll(groove=g3, nominal_radius=vals["R"], **kw)
+            return pc.ThreeRollPass(roll=roll, inscribed_circle_diameter=22e-3, entry_point=-vals["length"], **sup), []
+
+        def values3(rng):
+            v = values(rng)
+            gf = pc.RoundGroove(r1=3e-3, r2=12.5e-3, depth=5e-3, pad_angle=30).groove_factor
+            v["velocity"] = v["rf"] * (v["R"] - gf) * 2 * math.pi
+            v["duration"] = v["length"] / v["velocity"]
+            return v
+
+        def known(rp):
+            k = {"entry_point", "exit_point"}
+            if _safe(lambda: rp.roll.working_velocity)[0] == "V":
+                k.add("roll.working_velocity")
+            return k
+        rules = [("length", ["entry_point", "exit_point"]), ("duration", ["length", "velocity"]),
+                 ("velocity", ["roll.working_velocity"])]
+        return World(f"{cls_name}/unit/{'rf' if with_rf else 'norf'}", cls_name, "unit",
+                     values if cls_name == "TwoRollPass" else values3, build, known, rules, unit_rel)
+
+    W += [mk_pass_unit("TwoRollPass", True), mk_pass_unit("TwoRollPass", False), mk_pass_unit("ThreeRollPass", True)]
+
+    # ---- roll radius / diameter ------------------------------------------------------------------------------------
+    def rad_values(rng):
+        R = rng.uniform(0.05, 0.5)
+        return {"nominal_radius": R, "nominal_diameter": 2 * R}
+
+    def rad_rel(obj, got):
+        if len(got) == 2:
+            yield ("nominal_diameter=2*nominal_radius", got["nominal_diameter"], 2 * got["nominal_radius"])
+    rad_rules = [("nominal_radius", ["nominal_diameter"]), ("nominal_diameter", ["nominal_radius"])]
+    W.append(World("Roll/radius", "Roll", "radius", rad_values,
+                   lambda sup, vals: (pc.Roll(groove=_groove(pc), **sup), []), lambda o: set(), rad_rules, rad_rel))
+
+    def mk_pass_roll(sup, vals, roll_kw=None, pass_kw=None):
+        roll = pc.Roll(groove=_groove(pc), **(roll_kw or {}), **sup)
+        rp = pc.TwoRollPass(roll=roll, gap=2e-3, **(pass_kw or {}))
+        return rp.roll, [rp]
+    W.append(World("PassRoll/radius", "PassRoll", "radius", rad_values, mk_pass_roll, lambda o: set(), rad_rules, rad_rel))
+
+    # ---- rotational frequency / surface velocity / working velocity -------------------------------------------------
+    def vel_values(rng):
+        R, rf = rng.uniform(0.05, 0.5), _logu(rng)
+        gf = _groove(pc).groove_factor
+        a = rng.uniform(0.02, 0.3)
+        wv = rf * (R - gf) * 2 * math.pi
+        return {"R": R, "rotational_frequency": rf, "surface_velocity": rf * R * 2 * math.pi, "working_velocity": wv,
+                "neutral_angle": a, "neutral_point": math.sin(a) * (R - gf), "gf": gf}
+
+    def vel_rel(obj, got):
+        R = _safe(lambda: float(obj.nominal_radius))
+        wr = _safe(lambda: float(obj.working_radius))
+        if R[0] == "V" and "rotational_frequency" in got and "surface_velocity" in got:
+            yield ("surface_velocity=rotational_frequency*nominal_radius*2pi", got["surface_velocity"],
+                   got["rotational_frequency"] * R[1] * 2 * math.pi)
+        if wr[0] == "V" and "rotational_frequency" in got and "working_velocity" in got:
+            yield ("working_velocity=rotational_frequency*working_radius*2pi", got["working_velocity"],
+                   got["rotational_frequency"] * wr[1] * 2 * math.pi)
+    vel_rules = [("working_radius", ["nominal_radius"]), ("nominal_radius", ["nominal_diameter"]),
+                 ("nominal_diameter", ["nominal_radius"]),
+                 ("working_velocity", ["rotational_frequency", "working_radius"]),
+                 ("surface_velocity", ["rotational_frequency", "nominal_radius"]),
+                 ("rotational_frequency", ["surface_velocity", "nominal_radius"]),
+                 ("rotational_frequency", ["working_velocity", "working_radius"])]
+
+    def mk_roll_vel(radius):
+        def build(sup, vals):
+            kw = {"nominal_radius": vals["R"]} if radius == "nr" else {"nominal_diameter": 2 * vals["R"]} if radius == "nd" else {}
+            return pc.Roll(groove=_groove(pc), **kw, **sup), []
+        return World(f"Roll/vel/{radius}", "Roll", "rollvel", vel_values, build,
+                     lambda o: {n for n in ("nominal_radius", "nominal_diameter") if o.has_set(n)}, vel_rules, vel_rel)
+    W += [mk_roll_vel(r) for r in ("nr", "nd", "none")]
+
+    def mk_passroll_vel(pass_vel, neutral):
+        def build(sup, vals):
+            rkw = {"nominal_radius": vals["R"]}
+            ang = 0.0                                       # exit angle: exit_point = 0
+            if neutral != "none":
+                rkw[neutral] = vals[neutral]
+                ang = vals["neutral_angle"]
+            pkw = {"velocity": vals["working_velocity"] * math.cos(ang)} if pass_vel else {}
+            return mk_pass_roll(sup, vals, rkw, pkw)
+
+        def known(o):
+            k = {n for n in ("nominal_radius", "nominal_diameter", "neutral_angle", "neutral_point") if o.has_set(n)}
+            if o.roll_pass.has_set("velocity"):
+                k.add("roll_pass.velocity")
+            return k
+        rules = vel_rules + [("working_velocity", ["roll_pass.velocity", "working_radius"])]
+        return World(f"PassRoll/vel/{'pv' if pass_vel else 'nopv'}/{neutral}", "PassRoll", "rollvel", vel_values, build,
+                     known, rules, vel_rel)
+    W += [mk_passroll_vel(pv, ne) for pv in (False, True) for ne in ("none", "neutral_angle", "neutral_point")]
+
+    # ---- neutral point / neutral angle -----------------------------------------------------------------------------------
+    def neu_rel(obj, got):
+        wr = _safe(lambda: float(obj.working_radius))
+        if wr[0] == "V" and len(got) == 2:
+            yield ("neutral_point=sin(neutral_angle)*working_radius", got["neutral_point"],
+                   math.sin(got["neutral_angle"]) * wr[1])
+    neu_rules = [("working_radius", ["nominal_radius"]), ("neutral_angle", ["neutral_point", "working_radius"]),
+                 ("neutral_point", ["neutral_angle", "working_radius"])]
+    for radius in ("nr", "none"):
+        W.append(World(f"PassRoll/neutral/{radius}", "PassRoll", "neutral", vel_values,
+                       (lambda radius: lambda sup, vals: mk_pass_roll(
+                           sup, vals, {"nominal_radius": vals["R"]} if radius == "nr" else {}))(radius),
+                       lambda o: {n for n in ("nominal_radius",) if o.has_set(n)}, neu_rules, neu_rel))
+
+    # ---- cooling pipe ------------------------------------------------------------------------------------------------------
+    def pipe_values(rng):
+        r = _logu(rng, -4, 0)
+        return {"inner_radius": r, "cross_section_area": math.pi * r ** 2}
+
+    def pipe_rel(obj, got):
+        if len(got) == 2:
+            yield ("cross_section_area=pi*inner_radius^2", got["cross_section_area"], math.pi * got["inner_radius"] ** 2)
+    W.append(World("CoolingPipe/pipe", "CoolingPipe", "pipe", pipe_values, lambda sup, vals: (pc.CoolingPipe(**sup), []),
+                   lambda o: set(), [("inner_radius", ["cross_section_area"]), ("cross_section_area", ["inner_radius"])],
+                   pipe_rel))
+
+    # ---- target width / filling ratio / cross-section area / its filling ratio -------------------------------------------
+    def mk_target(cls_name):
+        def bare(**sup):
+            if cls_name == "TwoRollPass":
+                return pc.TwoRollPass(roll=pc.Roll(groove=_groove(pc), nominal_radius=0.16), gap=2e-3, **sup)
+            g3 = pc.RoundGroove(r1=3e-3, r2=12.5e-3, depth=5e-3, pad_angle=30)
+            return pc.ThreeRollPass(roll=pc.Roll(groove=g3, nominal_radius=0.16), inscribed_circle_diameter=22e-3, **sup)
+        ocs = helpers.out_cross_section if cls_name == "TwoRollPass" else helpers.out_cross_section3
+
+        def values(rng):
+            rp = bare()
+            f = rng.uniform(0.6, 0.98)
+            uw, ua = float(rp.usable_width), float(rp.usable_cross_section.area)
+            tw = f * uw
+            ta = float(ocs(rp, tw).area)
+            return {"target_filling_ratio": f, "target_width": tw, "target_cross_section_area": ta,
+                    "target_cross_section_filling_ratio": ta / ua}
+
+        def rel(obj, got):
+            uw, ua = float(obj.usable_width), float(obj.usable_cross_section.area)
+            if "target_width" in got and "target_filling_ratio" in got:
+                yield ("target_width=target_filling_ratio*usable_width", got["target_width"], got["target_filling_ratio"] * uw)
+            if "target_cross_section_area" in got and "target_cross_section_filling_ratio" in got:
+                yield ("target_cross_section_area=target_cross_section_filling_ratio*usable_area",
+                       got["target_cross_section_area"], got["target_cross_section_filling_ratio"] * ua)
+            # the width based pair determines the area based pair only when the latter is not given itself
+            if "target_width" in got and "target_cross_section_area" in got and not (
+                    obj.has_set("target_cross_section_area") or obj.has_set("target_cross_section_filling_ratio")):
+                yield ("target_cross_section_area=area(out_cross_section(target_width))", got["target_cross_section_area"],
+                       float(ocs(obj, got["target_width"]).area))
+        rules = [("target_filling_ratio", []), ("target_width", ["target_filling_ratio"]),
+                 ("target_filling_ratio", ["target_width"]),
+                 ("target_cross_section_area", ["target_cross_section_filling_ratio"]),
+                 ("target_cross_section_filling_ratio", ["target_cross_section_area"]),
+                 ("target_cross_section_area", ["target_width"])]
+        return World(f"{cls_name}/target", cls_name, "target", values, lambda sup, vals: (bare(**sup), []),
+                     lambda o: set(), rules, rel)
+    W += [mk_target("TwoRollPass"), mk_target("ThreeRollPass")]
+    return W
+
+
+# --------------------------------------------------------------------------------------------------------------
+# model side: externals of a scenario, measured on a twin object
+# --------------------------------------------------------------------------------------------------------------
+def _real_class(pc, cname):
+    obj = pc
+    for part in CLASSES[cname][0].split("."):
+        obj = getattr(obj, part)
+    return obj
+
+
+def _guard_atoms(g, out):
+    if g[0] in ("not",):
+        _guard_atoms(g[1], out)
+    elif g[0] in ("and", "or"):
+        _guard_atoms(g[1], out)
+        _guard_atoms(g[2], out)
+    elif g[0] in ("hasValue", "hasSet", "hasSetOrCached", "hasCached"):
+        out.append(g)
+
+
+def _paths(table, hooks):
+    """external paths the table of a class refers to: ([value paths], [object prefixes], [(key, HookImpl) opaque])"""
+    vals, objs, opaque = [], [], []
+    for (_, i) in table:
+        for (g, e, kind) in i.alts:
+            atoms = []
+            _guard_atoms(g, atoms)
+            for a in atoms:
+                if a[1] != "":
+                    objs.append(a[1])
+                    vals.append(a[1] + "." + a[2])
+            if kind == "expr":
+                for v in pyexpr.expr_vars(e):
+                    if v not in hooks:
+                        vals.append(v)
+                        if "." in v:
+                            objs.append(v.rsplit(".", 1)[0])
+            elif kind.startswith("opaque"):
+                opaque.append(("@" + i.host + "/" + i.fn, i))
+    def uniq(xs):
+        return list(dict.fromkeys(xs))
+    return uniq(vals), uniq(objs), uniq(opaque)
+
+
+def _kind(e):
+    if isinstance(e, AttributeError):
+        return "attr"
+    if isinstance(e, IndexError):
+        return "index"
+    if isinstance(e, ValueError):
+        return "value"
+    return "other"
+
+
+def _resolve(obj, path):
+    """('V', value, owner, last) or ('E', exc)"""
+    owner = None
+    try:
+        for part in path.split("."):
+            owner, obj = obj, getattr(obj, part)
+    except Exception as e:  # noqa - classification only
+        return ("E", e)
+    return ("V", obj, owner, path.split(".")[-1])
+
+
+def _measure_ext(pc, cname, table, twin, real_funcs):
+    """-> (ext list [(path, status)], env {name: float})"""
+    hooks = CLASSES[cname][2]
+    vals, objs, opaque = _paths(table, hooks)
+    ext, env = [], {}
+    for o in objs:
+        r = _resolve(twin, o)
+        if r[0] == "E":
+            ext.append((o, "e" + _kind(r[1])[0]))
+        elif r[1] is None:
+            ext.append((o, "ea"))                      # any attribute access on None raises AttributeError
+    for p in vals:
+        r = _resolve(twin, p)
+        if r[0] == "E":
+            ext.append((p, "e" + _kind(r[1])[0]))
+            continue
+        _, v, owner, last = r
+        is_set = hasattr(owner, "has_set") and owner.has_set(last)
+        ext.append((p, "s" if is_set else "a"))
+        try:
+            env[p] = float(v)
+        except (TypeError, ValueError):
+            pass
+    for (key, i) in opaque:
+        hf = real_funcs.get((i.host, i.fn))
+        if hf is None:
+            continue
+        try:
+            v = hf.function(twin, **({"cycle": False} if i.wants_cycle else {}))
+        except Exception as e:  # noqa - classification only
+            ext.append((key, "e" + _kind(e)[0]))
+            continue
+        if v is None:
+            ext.append((key, "n"))
+        else:
+            ext.append((key, "a"))
+            env[key] = float(v)
+    return ext, env
+
+
+def _py_chain(table, mro, hook):
+    out = []
+    for t in (0, 1, 2):
+        for h in mro:
+            out += [(i.host, i.fn) for (_, i) in reversed(table) if i.hook == hook and i.host == h and i.tier == t]
+    return out
+
+
+def _check_registration(ctx, pc, tables):
+    """the chain the interpreter uses (tier, MRO, newest first over the generated table) against the real
+    `Hook.functions` of the real class; returns {class: {(host, fn): HookFunction}}"""
+    funcs = {}
+    for cname, (_, mro, hooks) in CLASSES.items():
+        cls = _real_class(pc, cname)
+        funcs[cname] = {}
+        for hook in hooks:
+            h = getattr(cls, hook, None)
+            if h is None or not hasattr(h, "functions"):
+                ctx.tie_breaks.append(f"registration: {cname} has no hook {hook}")
+                continue
+            real = [(f.hook.owner.__qualname__, f.name) for f in h.functions]
+            for f in h.functions:
+                funcs[cname][(f.hook.owner.__qualname__, f.name)] = f
+                if f.wrapper:
+                    ctx.tie_breaks.append(f"registration: wrapper {f.name} on {cname}.{hook} (wrappers are not modelled)")
+            model = _py_chain(tables[cname], mro, hook)
+            if real != model:
+                ctx.tie_breaks.append(f"registration: resolution chain of {cname}.{hook} is {real}, the generated table "
+                                      f"gives {model}")
+    return funcs
+
+
+# --------------------------------------------------------------------------------------------------------------
+# one scenario on the real object
+# --------------------------------------------------------------------------------------------------------------
+_RECURSION = []      # RecursionErrors converted to AttributeError inside Hook.__get__ during the current read
+_CALLS = {"obj": None, "funcs": (), "n": 0}   # invocations of the table's hook functions on the instance under test
+
+
+class _watch_recursion:
+    """`Hook.__get__` turns a RecursionError into an AttributeError, which an enclosing `has_value` then swallows: the
+    caller only sees a (slow) AttributeError.  While the harness runs, the conversion is recorded (restored on exit)."""
+
+    def __enter__(self):
+        from pyroll.core import hooks
+        self.hooks, self.orig = hooks, hooks.Hook.__get__
+        orig = self.orig
+
+        def watched(hook, instance, owner):
+            try:
+                return orig(hook, instance, owner)
+            except AttributeError as e:
+                if isinstance(e.__cause__, RecursionError) and not _RECURSION:
+                    _RECURSION.append(hook.name)
+                raise
+        hooks.Hook.__get__ = watched
+        self.orig_call = hooks.HookFunction.__call__
+        orig_call = self.orig_call
+
+        def counted(hf, instance):
+            if instance is _CALLS["obj"] and hf in _CALLS["funcs"]:
+                _CALLS["n"] += 1
+            return orig_call(hf, instance)
+        hooks.HookFunction.__call__ = counted
+        return self
+
+    def __exit__(self, *a):
+        self.hooks.Hook.__get__ = self.orig
+        self.hooks.HookFunction.__call__ = self.orig_call
+        _CALLS["obj"] = None
+
+
+def _read(obj, name):
+    del _RECURSION[:]
+    t0 = time.perf_counter()
+    try:
+        v = getattr(obj, name)
+        dt = time.perf_counter() - t0
+        if _RECURSION:
+            return ("E", "value-after-RecursionError", dt, f"RecursionError inside the evaluation of {_RECURSION[0]} "
+                                                           f"(swallowed), value {v}")
+        return ("V", float(v), dt, None)
+    except BaseException as e:  # noqa - everything the implementation raises is an observation
+        if isinstance(e, (KeyboardInterrupt, SystemExit)):
+            raise
+        dt = time.perf_counter() - t0
+        rec, c = bool(_RECURSION), e
+        for _ in range(50):
+            if c is None:
+                break
+            rec = rec or isinstance(c, RecursionError)
+            c = c.__cause__ or c.__context__
+        return ("E", _kind(e) + ("(RecursionError)" if rec else ""), dt, f"{type(e).__name__}: {str(e)[:120]}")
+
+
+def _run_real(world, sup_names, order, vals, funcs):
+    sup = {m: vals[m] for m in sup_names}
+    obj, keep = world.build(sup, vals)
+    _CALLS["obj"], _CALLS["funcs"] = obj, set(funcs.values())
+    reads = []
+    for m in order:
+        _CALLS["n"] = 0
+        r = _read(obj, m)
+        reads.append((m,) + r[:3] + (r[3] if r[3] is not None else "", _CALLS["n"]))
+    _CALLS["obj"] = None
+    hooks = CLASSES[world.cls][2]
+    cache = sorted(n for n in obj.__cache__ if n in hooks)
+    active = sorted(f.name for f in funcs.values() if id(obj) in f._active_instances)
+    return obj, keep, reads, cache, active
+
+
+def _closure(known, rules):
+    known = set(known)
+    changed = True
+    while changed:
+        changed = False
+        for (t, src) in rules:
+            if t not in known and all(s in known for s in src):
+                known.add(t)
+                changed = True
+    return known
+
+
+def _close(a, b, rtol=RTOL):
+    return abs(a - b) <= rtol * max(abs(a), abs(b)) + 1e-300
+
+
+def _case_replay(world, sup_names, order, vals):
+    return {"world": world.name, "class": CLASSES[world.cls][0], "supplied": {m: vals[m] for m in sup_names},
+            "read_order": list(order), "values": vals,
+            "how": "driver.props.c16: w = [w for w in _worlds() if w.name == world][0]; obj, keep = w.build(supplied, values); "
+                   "[getattr(obj, m) for m in read_order]"}
+
+
+def _scenario(ctx, world, vals, funcs, tables, lines, pending, only=None):
+    """all subsets x all orders of one world for one assignment of values; oracle immediately, model lines queued"""
+    pc = _core()
+    members = world.members
+    hooks = CLASSES[world.cls][2]
+    for k in range(len(members) + 1):
+        for sup_names in itertools.combinations(members, k):
+            if only is not None and list(sup_names) != only[0]:
+                continue
+            sup = {m: vals[m] for m in sup_names}
+            twin, keep_t = world.build(sup, vals)
+            pre_set = [h for h in hooks if twin.has_set(h)]
+            known = set(pre_set) | world.known(twin)
+            expect = _closure(known, world.rules)
+            ext = env = None
+            if ctx.model_available:
+                ext, env = _measure_ext(pc, world.cls, tables[world.cls], twin, funcs[world.cls])
+                for h in pre_set:
+                    v = twin.__dict__[h]
+                    if isinstance(v, (int, float)):
+                        env[h] = float(v)
+            per_member = {m: [] for m in members}
+            first_got = None
+            for order in itertools.permutations(members):
+                if only is not None and list(order) not in only[1]:
+                    continue
+                obj, keep, reads, cache, active = _run_real(world, sup_names, order, vals, funcs[world.cls])
+                got = {m: v for (m, k_, v, dt, msg, nc) in reads if k_ == "V"}
+                derived = [m for m in got if m not in sup_names]
+                ctx.case([world.name, list(sup_names), list(order)],
+                         nontrivial=bool(derived) and len(sup_names) < len(members))
+                ctx.count("group:" + world.group)
+                ctx.count(f"supplied:{len(sup_names)}/{len(members)}")
+                rp = _case_replay(world, sup_names, order, vals)
+                for (m, k_, v, dt, msg, nc) in reads:
+                    per_member[m].append((order, k_, v))
+                    if k_ == "E":
+                        ctx.count("fail:" + v)
+                        if v != "attr":
+                            ctx.violation(f"{world.group}:wrong-error", f"{world.name}: reading {m} with "
+                                          f"{sorted(sup_names) or 'nothing'} supplied raises {msg} instead of AttributeError", rp)
+                        if dt > SLOW:
+                            ctx.violation(f"{world.group}:slow-failure", f"{world.name}: failing read of {m} took {dt:.2f}s", rp)
+                        if m in expect and v == "attr":
+                            ctx.violation(f"{world.group}:underivable", f"{world.name}: {m} follows from "
+                                          f"{sorted(known)} but reading it (order {list(order)}) raises {msg}", rp)
+                    else:
+                        if m in sup_names and v != vals[m]:
+                            ctx.violation(f"{world.group}:supplied-changed", f"{world.name}: supplied {m}={vals[m]} reads {v}", rp)
+                        if m not in expect:
+                            ctx.violation(f"{world.group}:invented", f"{world.name}: {m} reads {v} although only "
+                                          f"{sorted(known)} is known", rp)
+                for (rel, lhs, rhs) in world.relations(obj, got):
+                    if not _close(lhs, rhs):
+                        ctx.violation(f"{world.group}:inconsistent", f"{world.name}: with "
+                                      f"{sorted(sup_names) or 'nothing'} supplied (order {list(order)}): {rel} fails: "
+                                      f"{lhs} vs {rhs}", rp)
+                if active:
+                    ctx.violation(f"{world.group}:marks-left", f"{world.name}: re-entrancy marks left on {active}", rp)
+                if first_got is None:
+                    first_got = (got, obj, keep)
+                if ctx.model_available:
+                    set_names = pre_set
+                    lines.append("run %s ext=%s set=%s order=%s env=%s fuel=%d" % (
+                        world.cls, ",".join(f"{p}/{s}" for (p, s) in ext) or "-", ",".join(set_names) or "-",
+                        ",".join(order), ",".join(f"{n}={stub.bits(x)}" for n, x in env.items()) or "-", FUEL))
+                    pending.append((rp, reads, cache))
+            # order independence
+            for m in members:
+                obs = per_member[m]
+                if not obs:
+                    continue
+                o0, k0, v0 = obs[0]
+                for (o, k_, v) in obs[1:]:
+                    same = (k_ == k0) and (v == v0 if k_ == "E" else _close(v, v0))
+                    if not same:
+                        ctx.violation(f"{world.group}:order-dependent", f"{world.name}: with {sorted(sup_names) or 'nothing'} "
+                                      f"supplied {m} reads {v0 if k0 == 'V' else 'Error(' + v0 + ')'} in order {list(o0)} but "
+                                      f"{v if k_ == 'V' else 'Error(' + v + ')'} in order {list(o)}",
+                                      dict(_case_replay(world, sup_names, o, vals), reference_order=list(o0)))
+                        break
+            # round trip: a derived value supplied to a fresh object reproduces the original
+            if first_got is not None and only is None:
+                got = first_got[0]
+                base_known = set(h for h in pre_set if h not in sup_names) | world.known(twin)
+                for m in members:
+                    if m in sup_names or m not in got:
+                        continue
+                    # only along documented directions in which `m` is essential: s is derivable from m, not without it
+                    back = _closure(base_known | {m}, world.rules) - _closure(base_known, world.rules)
+                    vals2 = dict(vals)
+                    vals2[m] = got[m]
+                    obj2, keep2 = world.build({m: got[m]}, vals2)
+                    for s_ in sup_names:
+                        if s_ not in back:
+                            continue
+                        r = _read(obj2, s_)
+                        if r[0] == "V" and not _close(r[1], vals[s_]):
+                            ctx.violation(f"{world.group}:roundtrip", f"{world.name}: {m}={got[m]} was derived from "
+                                          f"{s_}={vals[s_]}; a fresh object given {m} reads {s_}={r[1]}",
+                                          _case_replay(world, [m], [s_], vals2))
+                        ctx.count("roundtrip")
+            if len(ctx.samples) < 3 and first_got is not None and sup_names and len(sup_names) < len(members):
+                ctx.sample({"world": world.name, "supplied": sup, "read": first_got[0]})
+
+
+def _compare(ctx, lines, pending):
+    out = ctx.lean_model(MODEL, lines)
+    if len(out) != len(lines):
+        ctx.disagreement(f"model driver answered {len(out)} lines for {len(lines)} scenarios", {"first": lines[:2]})
+        return
+    mx_steps = mx_depth = 0
+    for line, ans, (rp, reads, cache) in zip(lines, out, pending):
+        parts = ans.split("|")
+        if len(parts) != 3:
+            ctx.disagreement(f"model driver: {ans[:80]}", {"line": line, **rp})
+            continue
+        mreads = [r for r in parts[0].split(";") if r]
+        ok = len(mreads) == len(reads)
+        why = ""
+        for mr, (m, k_, v, dt, msg, nc) in zip(mreads, reads):
+            name, rest = mr.split("=", 1)
+            res, steps, depth, calls = rest.rsplit(":", 3)
+            if int(calls) != nc and ok:
+                ok, why = False, f"{m}: the model invokes {calls} hook functions, the implementation {nc}"
+            mx_steps, mx_depth = max(mx_steps, int(steps)), max(mx_depth, int(depth))
+            if res.startswith("V"):
+                mv = stub.unbits(res[1:])
+                if not (k_ == "V" and stub.close(mv, v, rtol=1e-10)):
+                    ok, why = False, f"{m}: model {mv}, implementation {v if k_ == 'V' else msg}"
+            else:
+                if not (k_ == "E" and res == "E" + v.split("(")[0]):
+                    ok, why = False, f"{m}: model {res}, implementation {v if k_ == 'V' else msg}"
+        mcache = sorted(x for x in parts[1][len("cache="):].split(",") if x)
+        if ok and mcache != cache:
+            ok, why = False, f"names in __cache__: model {mcache}, implementation {cache}"
+        if ok and parts[2] != "active=":
+            ok, why = False, f"model leaves marks {parts[2]}"
+        if ok:
+            ctx.validated()
+        else:
+            ctx.disagreement(f"{rp['world']} supplied={sorted(rp['supplied'])} order={rp['read_order']}: {why}",
+                             {"line": line, "model": ans, **rp})
+    ctx.notes["model_max_steps_per_read"] = max(mx_steps, ctx.notes.get("model_max_steps_per_read", 0))
+    ctx.notes["model_max_stack_depth"] = max(mx_depth, ctx.notes.get("model_max_stack_depth", 0))
+
+
+def _linked_instances(ctx):
+    """two instances of one class inside the same evaluation: roll A takes its surface velocity from roll B (an explicit
+    value may be a callable), and B has to derive it through the very functions that are executing on A.  The
+    re-entrancy marks are per (function, instance), so B's evaluation must not be cut short by A's marks."""
+    pc = _core()
+    for i in range(ctx.budget(6, 60)):
+        R, rf = ctx.rng.uniform(0.05, 0.5), _logu(ctx.rng)
+        g = _groove(pc)
+        gf = g.groove_factor
+        wv = rf * (R - gf) * 2 * math.pi
+        b = pc.Roll(groove=g, nominal_radius=R, working_velocity=wv)
+        a = pc.Roll(groove=_groove(pc), nominal_radius=R, surface_velocity=lambda self: b.surface_velocity)
+        order = list(ctx.rng.sample(GROUPS["rollvel"], 3))
+        ctx.case(["linked-rolls", order])
+        ctx.count("group:rollvel-linked")
+        exp = {"rotational_frequency": rf, "surface_velocity": rf * R * 2 * math.pi, "working_velocity": wv}
+        rp = {"world": "linked-rolls", "R": R, "working_velocity_of_b": wv, "read_order": order,
+              "how": "b = Roll(groove=g, nominal_radius=R, working_velocity=wv); a = Roll(groove=g, nominal_radius=R, "
+                     "surface_velocity=lambda self: b.surface_velocity); [getattr(a, m) for m in read_order]"}
+        for m in order:
+            r = _read(a, m)
+            if r[0] != "V" or not _close(r[1], exp[m]):
+                ctx.violation("rollvel:instances-interfere", f"roll a (surface velocity taken from roll b): {m} reads "
+                              f"{r[1] if r[0] == 'V' else r[3]}, expected {exp[m]}", rp)
+                break
+
+
 def run(ctx):
-    pass
+    pc = _core()
+    tables = getattr(ctx, "tables", None) or _tables()[1]
+    funcs = _check_registration(ctx, pc, tables)
+    worlds = _worlds()
+    reps = ctx.budget(1, 12)
+    lines, pending = [], []
+    with _watch_recursion():
+        for rep in range(reps):
+            for w in worlds:
+                vals = w.values(ctx.rng)
+                _scenario(ctx, w, vals, funcs, tables, lines, pending)
+        _linked_instances(ctx)
+    if ctx.model_available and lines:
+        _compare(ctx, lines, pending)
+    # the driver reports the first few distinct keys: put one key per kind of failure first
+    prio = ["wrong-error", "instances-interfere", "slow-failure", "invented", "supplied-changed", "marks-left", "inconsistent",
+            "order-dependent", "roundtrip", "underivable"]
+    ctx.violations.sort(key=lambda v: prio.index(v[0].split(":")[-1]) if v[0].split(":")[-1] in prio else 99)
+
+
+def replay(ctx, data):
+    r = data["replay"]
+    w = [w for w in _worlds() if w.name == r["world"]][0]
+    pc = _core()
+    tables = _tables()[1]
+    funcs = _check_registration(ctx, pc, tables)
+    lines, pending = [], []
+    ctx.model_available = False
+    orders = [r["read_order"]] + ([r["reference_order"]] if "reference_order" in r else [])
+    with _watch_recursion():
+        _scenario(ctx, w, r["values"], funcs, tables, lines, pending,
+                  only=(sorted(r["supplied"], key=w.members.index), orders))
+    for (k, what, _) in ctx.violations:
+        print(f"replayed: {k}: {what}")
